@@ -71,4 +71,4 @@ type AuthTransport struct {
 }
 
 func (a *AuthTransport) GetInChannelAuthType() transport.InChannelAuthType { return a.Kind }
-func (a *AuthTransport) GetSSHArgs() *transport.SSHArgs                   { return a.SSH }
+func (a *AuthTransport) GetSSHArgs() *transport.SSHArgs                    { return a.SSH }
